@@ -124,6 +124,11 @@ def pool_target(x):
                     time.sleep(0.001)
             except Exception:
                 pass
+    if x == -2:
+        # fails, but leaves a non-daemon thread behind: the worker reports its end while its process lingers
+        import threading
+        threading.Thread(target=time.sleep, args=(20.0,), name='left-behind').start()
+        raise RuntimeError('poison input (process lingers)')
     if x < 0:
         raise RuntimeError('poison input')
     return x * x
@@ -166,3 +171,22 @@ def linger_ret(flag_path=None, linger=8.0):
     threading.Thread(target=time.sleep, args=(linger,), name='left-behind').start()
     _mark(flag_path)
     return 7
+
+
+# ---- C04: a result that takes long to rebuild on the parent side (keeps the frontend thread of a remote worker busy) ----
+def _slow_rebuild(flag_path, secs):
+    _mark(flag_path)
+    time.sleep(secs)
+    return 'rebuilt'
+
+
+class SlowResult:
+    def __init__(self, flag_path, secs):
+        self.flag_path, self.secs = flag_path, secs
+
+    def __reduce__(self):
+        return (_slow_rebuild, (self.flag_path, self.secs))
+
+
+def slow_result_target(flag_path=None, secs=7.0):
+    return SlowResult(flag_path, secs)
